@@ -37,7 +37,7 @@ REAL = ['py4hw.simulation.Simulator (topologicalSort, propagateAll, clk)', 'py4h
 STUB = ['stimulus (wire.put between clk calls)']
 ASSUMPTIONS = ['reference models in dsim/catalog.py state the documented function of each block',
                'netlists up to ~150 leaves / chains up to 900 deep (thorough); widths up to 70']
-PROBES = ['stop_cancel', 'sorter_needed_repair', 'cyclic_refused', 'reg_cycle_accepted', 'late_add', 'antidataflow_block']
+PROBES = ['const_update', 'stop_cancel', 'sorter_needed_repair', 'cyclic_refused', 'reg_cycle_accepted', 'late_add', 'antidataflow_block']
 
 STATEFUL_LEAVES = {'Latch', 'AsynchronousMemory', 'BidirBuf'}
 
@@ -80,7 +80,12 @@ def gen(rs, tier, index):
         prev = vec
         faults = [f for f in ('resort', 'sim_restart', 'extra_settle') if fr.random() < 0.2]
         n = sr.choice([1, 1, 1, 2, 3, 6])
-        steps.append({'vec': vec, 'clk': n, 'faults': faults, 'stop_at': fr.randint(1, n - 1) if (n > 1 and fr.random() < 0.3) else None})
+        step = {'vec': vec, 'clk': n, 'faults': faults, 'stop_at': fr.randint(1, n - 1) if (n > 1 and fr.random() < 0.3) else None}
+        consts = [nd for nd in d['nodes'] if nd['kind'] == 'Constant' and not nd.get('guard')]
+        if consts and fr.random() < 0.2:
+            nd = fr.choice(consts)
+            step['const'] = [nd['id'], fr.getrandbits(nd['ow'][0])]     # the block's value attribute is changed between clk calls
+        steps.append(step)
     scn['steps'] = steps
     return scn
 
@@ -232,6 +237,13 @@ def run(scn, log, st):
                 sim.propagateAll()
                 st.fault('extra_settle')
             st.nontrivial = True
+        if step.get('const'):
+            nid, v = step['const']
+            if nid in b.objs:
+                b.objs[nid].value = v
+                ref.b.objs[nid].value = v
+                st.fault('const_update')
+                st.probe('const_update')
         b.set_inputs(step['vec'])
         ref.set_inputs(step['vec'])
         ref.settle()
